@@ -21,9 +21,27 @@ import (
 // several paths.  Every comparison must give the same answer on such a document and on a deep copy of
 // it in which nothing is shared (library against itself).
 
-var deepSharedDepths = []int{10, 500, 999, 1000, 1001, 1002, 1200, 2000, 5000}
+var deepSharedDepths = []int{10, 500, 999, 1000, 1001, 1002, 1200, 2000, 5000, 9999, 10000, 10001, 10002, 20000, 49999, 50001, 70000}
 
 func deepNest(n int, leaf string, obj bool) any {
+	if n > 5000 {
+		// built directly (encoding/json stops at 10000 levels)
+		var lv any
+		d := json.NewDecoder(strings.NewReader(leaf))
+		d.UseNumber()
+		if err := d.Decode(&lv); err != nil {
+			panic(err)
+		}
+		v := lv
+		for i := n - 1; i >= 0; i-- {
+			if obj && i%2 == 1 {
+				v = map[string]any{"k": v}
+			} else {
+				v = []any{v}
+			}
+		}
+		return v
+	}
 	var b strings.Builder
 	for i := 0; i < n; i++ {
 		if obj && i%2 == 1 {
@@ -57,6 +75,10 @@ func deepSharedRun(prop string) func(c *Ctx, idx int) {
 		obj := idx/len(deepSharedDepths) == 1
 		doc := map[string]any{"a": deepNest(n, "1", obj), "b": deepNest(n, "1", obj), "c": deepNest(n, "2", obj)}
 		shared := deepNest(n, "1", obj)
+		doc["l"] = deepNest(n, `{"id":"x","left":null}`, obj)
+		doc["r"] = deepNest(n, `{"id":"x","right":null}`, obj)
+		doc["l2"] = deepNest(n, `{"id":"x","left":null}`, obj)
+		doc["m"] = deepNest(n, `{"id":"x"}`, obj)
 		doc["g"] = []any{shared, shared}
 		doc["h"] = []any{deepNest(n, "1", obj), deepNest(n, "1", obj)}
 		type q struct{ expr, want string }
@@ -65,6 +87,7 @@ func deepSharedRun(prop string) func(c *Ctx, idx int) {
 			{"{x: a, y: a} == {x: b, y: b}", "true"}, {"{x: a, y: a} == {y: b, x: c}", "false"}, {"let $v = a in [$v, $v] == [b, b]", "true"}, {"let $v = a in [$v, $v, $v] == [b, b, c]", "false"},
 			{"[[a, a]][?@ == [$.b, $.b]] | length(@)", "1"}, {"contains([[a, a]], [b, b])", "true"}, {"contains([[a, a]], [b, c])", "false"}, {"[a, b, a] == [b, a, b]", "true"}, {"[a, [a, a]] == [b, [b, b]]", "true"},
 			{"g == h", "true"}, {"h == g", "true"}, {"g != h", "false"}, {"g == [a, c]", "false"}, {"contains([g], h)", "true"}, {"[g, g] == [h, h]", "true"}, {"g[0] == g[1]", "true"},
+			{"l == r", "false"}, {"r == l", "false"}, {"l != r", "true"}, {"l == l2", "true"}, {"contains([l], r)", "false"}, {"contains([l], l2)", "true"}, {"l == m", "false"}, {"m == l", "false"}, {"[l, r] == [r, l]", "false"}, {"[l, l2] == [l2, l]", "true"},
 			{"[a, a][0] == [a, a][1]", "true"}, {"([a, a] | @[0]) == a", "true"}, {"[a, a] == `[1, 1]`", "false"}, {"zip([a], [a]) == zip([b], [b])", "true"}, {"[a, a] | @ == @", "true"},
 		}
 		for _, x := range qs {
